@@ -207,6 +207,7 @@ pub proof fn lemma_step_vals<T: IsNone, OT>(h0: Seq<Call<T, OT>>, rm: Option<T>,
             &&& (forall|k: int| #![trigger ps(wp, k)] ps(wp, k) == ps(w0, k) + pw(val(v), k))
             &&& 0 <= cnt(w0) <= h0.len()
             &&& rm.is_some() ==> {
+                &&& wp.len() > 0 && wp[0] == val(rm.unwrap()) && w1 =~= wp.subrange(1, wp.len() as int)
                 &&& cnt(w1) == cnt(wp) - cv(val(rm.unwrap()))
                 &&& cnt(wp) >= cv(val(rm.unwrap()))
                 &&& (forall|k: int| #![trigger ps(w1, k)] ps(w1, k) == ps(wp, k) - pw(val(rm.unwrap()), k))
@@ -227,6 +228,7 @@ pub proof fn lemma_step_vals<T: IsNone, OT>(h0: Seq<Call<T, OT>>, rm: Option<T>,
         lemma_drop_first(wp);
         assert(vals(wpt) =~= wp);
         assert(wp[0] == val(rm.unwrap()));
+        assert(vals(win_after(h0, rm, v)) =~= wp.subrange(1, wp.len() as int));
     }
 }
 
